@@ -20,10 +20,10 @@ V3 = ("data", "nan", "inf")
 # name, sizes, NV, IntVars, Vals, Methods, KindSel, ReqKinds, emit?, quick sample (None = all)
 SHAPES_QUICK = [
     ("d1v1", [2], 1, [], V3, BOTH, "cells", ("combos", "cases"), True, None),
-    ("d1v2t", [2], 2, [2], V3, BOTH, "cells", ("combos", "cases", "foreigncase"), True, 1800),
+    ("d1v2t", [2], 2, [2], V3, BOTH, "cells", ("combos", "cases", "foreigncase"), True, 1500),
     ("d1v1t3", [3], 1, [1], ("data", "nan"), ("isnull",), "cells", ("cases",), True, None),
     ("d2v1", [2, 2], 1, [], V3, BOTH, "cells", ALLREQ, True, None),
-    ("d2v2t", [2, 2], 2, [2], ("data", "nan"), ("isnull",), "cells", ("mixed",), True, 2500),
+    ("d2v2t", [2, 2], 2, [2], ("data", "nan"), ("isnull",), "cells", ("mixed",), True, 2000),
     ("d2v3", [2, 2], 3, [], ("data", "inf"), ("isfinite",), "cells", (), True, 1200),
     ("d3v1", [2, 2, 2], 1, [], ("nan", "inf"), BOTH, "cells", ("mixed", "foreigncase"), True, 650),
     ("d3v2t", [2, 2, 2], 2, [1], V3, BOTH, ("allnan", "s1data"), ("partial",), True, 400),
